@@ -1,3 +1,4 @@
+CONSTANT Bug = {}
 SPECIFICATION Spec
 INVARIANT Report
 CHECK_DEADLOCK FALSE
